@@ -193,7 +193,9 @@ func c10Encode(c *c10Case, strtabs func(int) *c10Arena) []byte {
 			// (one arena per ELF tag of the block: a later duplicate must not overwrite the first tag's table)
 			addr := strtabs(nElf).place(st)
 			nElf++
-			tg.Secs[tg.Shndx].Ad = c10W64(uint64(addr))
+			if len(tg.Secs) > 0 { // (an empty section table has no string-table section to point anywhere)
+				tg.Secs[tg.Shndx].Ad = c10W64(uint64(addr))
+			}
 			body = make([]byte, 12)
 			c10le.PutUint32(body[0:], uint32(len(tg.Secs)))
 			c10le.PutUint32(body[4:], 64)
@@ -263,7 +265,14 @@ func c10Abstract(c *c10Case) []c10Ev {
 			}
 			out = append(out, c10Ev{"k": "fb", "addr": tg.Addr, "pitch": tg.Pitch, "w": tg.W, "h": tg.H, "bpp": tg.Bpp, "ft": tg.Ft, "ci": ci})
 		case "elf":
-			out = append(out, c10Ev{"k": "elf", "shndx": tg.Shndx, "secs": tg.Secs, "strtab": tg.Strtab})
+			secs, st := tg.Secs, tg.Strtab
+			if secs == nil {
+				secs = []c10Sec{}
+			}
+			if st == nil {
+				st = []int{}
+			}
+			out = append(out, c10Ev{"k": "elf", "shndx": tg.Shndx, "secs": secs, "strtab": st})
 		default:
 			out = append(out, c10Ev{"k": "other", "ty": tg.Ty, "len": tg.Len, "fill": int(tg.Fill)})
 		}
@@ -702,6 +711,9 @@ func c10RandTag(rng *rand.Rand, kind int) c10Tag {
 		if rng.Intn(4) == 0 {
 			ns = 1 + rng.Intn(30)
 		}
+		if rng.Intn(8) == 0 {
+			return c10Tag{K: "elf", Shndx: 0, Secs: []c10Sec{}, Strtab: []int{}} // image without section headers
+		}
 		// string table: NUL, then NUL-terminated names
 		st := []int{0}
 		starts := []int{0}
@@ -764,6 +776,28 @@ func TestVerifC10Random(t *testing.T) {
 				kind = 4
 			}
 			c.Blk = append(c.Blk, c10RandTag(rng, kind))
+		}
+		// empty-payload corner cases, most often as the LAST tag (flush against the inaccessible page behind the end tag)
+		if rng.Intn(3) == 0 {
+			var e c10Tag
+			switch rng.Intn(5) {
+			case 0:
+				e = c10Tag{K: "elf", Shndx: 0, Secs: []c10Sec{}, Strtab: []int{}}
+			case 1:
+				e = c10Tag{K: "elf", Shndx: 0, Strtab: []int{0}, Secs: []c10Sec{{Ni: 0, Sz: c10W64(1)}}}
+			case 2:
+				e = c10Tag{K: "mmap", Es: 24 + 8*rng.Intn(3), Ents: []c10Ent{}}
+			case 3:
+				e = c10Tag{K: "cmd", S: []int{}}
+			default:
+				e = c10Tag{K: "fb", Addr: c10W64(0xb8000), Pitch: c10W32(160), W: c10W32(80), H: c10W32(25), Bpp: 16, Ft: 2, Ci: []int{}}
+			}
+			if rng.Intn(4) == 0 && len(c.Blk) > 0 {
+				at := rng.Intn(len(c.Blk))
+				c.Blk = append(c.Blk[:at], append([]c10Tag{e}, c.Blk[at:]...)...)
+			} else {
+				c.Blk = append(c.Blk, e)
+			}
 		}
 		jobs = append(jobs, c10Job{"T", c})
 	}
